@@ -30,7 +30,9 @@ def bounds(tier):
 
 def cases(tier):
     yield {"kind": "free-running"}
-    yield {"kind": "single-large"}
+    for ki in (0, 2, 9):
+        for n in (17, 33, 301):
+            yield {"kind": "single-large", "ki": ki, "n": n}
     for ri, px, ki in itertools.product(range(len(REGIONS)), (1.0, 0.5), range(len(KERNELS))):
         yield {"kind": "relations", "region": ri, "pixel": px, "kernel": ki}
     for ki in (0, 2, 5, 11, 13):
@@ -56,7 +58,7 @@ def run_case(case, ctx):
     elif case["kind"] == "schedules":
         schedules(case, ctx)
     elif case["kind"] == "single-large":
-        single_large(ctx)
+        single_large(ctx, case.get("ki"), case.get("n"))
     else:
         free_running(ctx)
 
@@ -187,14 +189,14 @@ def schedules(case, ctx):
         ctx.outcome(("sched", size, [np.round(np.asarray(s), 9).tolist() for s in serial][:1]))
 
 
-def single_large(ctx):
+def single_large(ctx, only_ki=None, only_n=None):
     """ONE large diagram with n_jobs (a transform that splits a big diagram across workers must still
     return the serial image), under every completion order of the controlled backend."""
     from checks.c04 import big_diagram
 
-    for ki in (0, 2, 9):
+    for ki in ((0, 2, 9) if only_ki is None else (only_ki,)):
         im = make(1, 0.5, ki, WEIGHTS[0])
-        for n in (17, 33, 301):
+        for n in ((17, 33, 301) if only_n is None else (only_n,)):
             A = np.array(big_diagram(n), dtype=float)
             serial = np.asarray(ctx.call(im.transform, A))
             for nj in (2, 3, 4):
